@@ -1,6 +1,7 @@
 package props
 
 import (
+	"math"
 	"fmt"
 	"reflect"
 	"sort"
@@ -89,6 +90,17 @@ func c08Values(c *core.Ctx, t reflect.Type, n int, class string) []interface{} {
 			return out
 		}
 		return gen.FromPool(gen.Pool(t, "edge"), n, c.Rng)
+	case "infties":
+		// tied infinite extremes, the first one at element 0 in half of the draws
+		pool := []float64{math.Inf(1), math.Inf(-1), 1, 2, math.Inf(1), math.Inf(-1)}
+		out := make([]interface{}, n)
+		for i := range out {
+			out[i] = model.FromFloat(t, pool[c.Rng.Intn(len(pool))])
+		}
+		if n > 0 && c.Rng.Intn(2) == 0 {
+			out[0] = model.FromFloat(t, math.Inf(1-2*c.Rng.Intn(2)))
+		}
+		return out
 	case "frac":
 		out := make([]interface{}, n)
 		for i := range out {
@@ -136,6 +148,9 @@ func c08Run(c *core.Ctx, red string, t reflect.Type) {
 	}
 	if model.IsFloat(t) {
 		classes = append(classes, "frac")
+		if red != "Sum" && red != "Reduce" {
+			classes = append(classes, "infties")
+		}
 	}
 	add := func(a, b interface{}) interface{} { r, _ := model.Bin("Add", a, b); return r }
 	maxf := func(a, b interface{}) interface{} {
